@@ -218,6 +218,24 @@ func c09Workloads(perProbe int) []c09Workload {
 					}
 				}
 			}
+			if !v.V6 && (v.Proto == "sack" || v.Proto == "syn") {
+				// cross-family: IPv6 datagrams whose addresses are the IPv4-mapped spellings (::ffff:a.b.c.d) of the
+				// probed connection's addresses, carrying what would be a reply on it: an ACK without SACK blocks (on a
+				// SACK run that would end the run), an ACK with a block for this TTL, a SYN-ACK and an RST for this probe
+				m := func(a netip.Addr) netip.Addr { return netip.AddrFrom16(a.As16()) }
+				src6, dst6 := m(e.spec.Target), m(e.local)
+				blk := append([]byte{1, 1}, wirefmt.OptSack([][2]uint32{{e.isn + uint32(p.TTL), e.isn + uint32(p.TTL) + 1}})...)
+				for _, sg := range []wirefmt.TCP{
+					{Flags: wirefmt.TCPAck, Ack: e.isn},
+					{Flags: wirefmt.TCPAck, Ack: e.isn, Options: blk},
+					{Flags: wirefmt.TCPSyn | wirefmt.TCPAck, Ack: p.Seq + 1},
+					{Flags: wirefmt.TCPRst | wirefmt.TCPAck, Ack: p.Seq + 1},
+					{Flags: wirefmt.TCPRst},
+				} {
+					sg.SrcPort, sg.DstPort, sg.Seq, sg.Window = e.spec.Port, e.lport, 0x51000001, 1024
+					out = append(out, wirefmt.IPv6{NextHeader: wirefmt.ProtoTCP, HopLimit: 60, Src: src6, Dst: dst6}.Marshal(sg.Marshal(src6, dst6)))
+				}
+			}
 			q := gen.QuoteBytes(p, 1, "fix")
 			from := routerAddr(v.V6, 1, p.TTL)
 			for _, typ := range []uint8{4, 5, 12, 13, 2} {
